@@ -405,7 +405,10 @@ def gen_scenario(rng, n_nodes=None, one_private_block=False):
         # all private networks inside one RFC 1918 block (what the dynamic address generator can re-label)
         nets_priv = [f"192.168.{k}.0/24" for k in rng.sample(range(1, 9), rng.randrange(1, 4))] + \
                     ([f"192.168.{rng.randrange(10, 20)}.16/28"] if rng.random() < 0.3 else [])
-    nets_pub = rng.sample(["213.47.23.192/26", "8.8.8.0/24", "100.64.0.0/30"], rng.randrange(1, 3))
+    # public = not RFC 1918 (10/8, 172.16/12, 192.168/16): ordinary addresses, but also special-purpose blocks that other libraries call
+    # "private" (TEST-NET-1/2/3, benchmarking, link-local, shared address space)
+    nets_pub = rng.sample(["213.47.23.192/26", "8.8.8.0/24", "100.64.0.0/30", "203.0.113.0/24", "198.51.100.0/25", "192.0.2.0/28", "198.18.0.0/24", "169.254.7.0/24"],
+                          rng.randrange(1, 3))
     nets = list(dict.fromkeys(nets_priv + nets_pub))
     used = set()
 
